@@ -5,6 +5,14 @@ once per feasible combination of branch outcomes (c20_helpers), which yields
 the function's own decision table.  R1-R4 are universally quantified queries
 over that table, so they accept any guard structure realising the same table.
 
+A branch condition outside the policy vocabulary normally makes the paths it guards unreadable (exit 2).  One family is
+read (Table.free_header): a comparison of a client-chosen request header with a request-independent value or collection
+(``req.get_header('Access-Control-Request-Method') in COMBINED_METHODS``) that came out FALSE - the path is realised by
+a request carrying a fresh non-empty token in that header, so it is a witness that a successful OPTIONS exchange with
+the request-method header present is neither approved nor withdrawn (seeded s6-c20-2).  c20_helpers.ev3 also derives the
+truthiness of a header value from comparisons with constants decided on the path (``!= ''``, ``not in (None, '')``,
+``== 'GET'``), so equivalent spellings of "header present and non-empty" stay silent.
+
 Contract names used as anchors: the parameter positions of
 ``process_response(self, req, resp, resource, req_succeeded)``, the public
 attributes ``allow_origins`` / ``allow_credentials`` / ``expose_headers``, the
@@ -20,7 +28,7 @@ from typing import Dict, List, Optional
 from .. import flow
 from ..cfg import cfg_of
 from ..model import AnchorError, Class, Func, UnknownIdiom, dotted, short
-from .c20_helpers import Leaf, decision_table, ev3, f_and, f_not, f_or, lit, vkey
+from .c20_helpers import Leaf, decision_table, ev3, f_and, f_not, f_or, lit, split_args as _split_args, vkey
 from .common import implied, is_self_attr, walk_self
 
 PR = 'falcon.middleware.CORSMiddleware.process_response'
@@ -105,6 +113,78 @@ class Table:
                 break
         return bad
 
+    # -- atoms outside the vocabulary that still admit a verdict --------------------------------------------------
+    @staticmethod
+    def _client_test(atom: str):
+        """(header, other operand) when `atom` compares the value of a request header - sent by the client, default None -
+        with something that does not depend on the exchange (a constant, a module-level collection, a configuration
+        attribute): ``in(reqhdr(h),C)`` / ``eq(reqhdr(h),K)``; else None."""
+        if '(' not in atom or not atom.endswith(')'):
+            return None
+        kind = atom[:atom.index('(')]
+        if kind not in ('in', 'eq'):
+            return None
+        parts = _split_args(atom[atom.index('(') + 1:-1])
+        if len(parts) != 2:
+            return None
+        subj, other = parts
+        if kind == 'eq' and not subj.startswith('reqhdr('):
+            subj, other = other, subj
+        m = re.fullmatch(r'reqhdr\(([^(),]+)\)', subj)
+        if m is None or any(tok in other for tok in ('reqhdr(', 'prehdr(', 'param:', 'req.', 'resp.')):
+            return None
+        return m.group(1), other
+
+    def free_header(self, leaf: Leaf, atom: str) -> Optional[str]:
+        """Header name h when the out-of-vocabulary `atom` is a comparison of the client-chosen request header h with a
+        request-independent value/collection that came out FALSE on this path, and nothing else decided on the path
+        constrains that header beyond "present and non-empty".  Such a path is realised by a request that carries a
+        fresh non-empty token in h (a finite collection never contains every token), so on it ``truthy(reqhdr(h))`` may
+        be taken as true: the path is a witness, not an unread idiom.  (A TRUE outcome says the token is one of the
+        collection's elements; whether those are all non-empty is a fact about a value the interpreter cannot fold -
+        that stays an unknown idiom.)"""
+        ct = self._client_test(atom)
+        if ct is None or leaf.decisions.get(atom) is not False:
+            return None
+        h = ct[0]
+        ref = 'reqhdr(%s)' % h
+        for a, v in leaf.decisions.items():
+            if a == atom or ref not in a:
+                continue
+            if (a == 'none(%s)' % ref and v is False) or (a == 'truthy(%s)' % ref and v is True):
+                continue
+            ct2 = self._client_test(a)
+            if ct2 is not None and ct2[0] == h and v is False:
+                continue
+            return None
+        return h
+
+    def blocking_atoms(self, leaf: Leaf) -> List[str]:
+        """atoms outside the policy vocabulary that prevent a verdict on this path"""
+        return [a for a in self.unknown_atoms(leaf) if self.free_header(leaf, a) is None]
+
+    def pick(self, bads: List[Leaf]):
+        """(leaf to report, None) - a path on which the obligation fails and every decision is understood - or
+        (None, atom) when each failing path hinges on an atom that is not understood"""
+        first = None
+        for l in bads:
+            b = self.blocking_atoms(l)
+            if not b:
+                return l, None
+            first = first or b[0]
+        return None, first
+
+    def witness(self, leaf: Leaf) -> List[str]:
+        out = leaf.describe()
+        for a in self.unknown_atoms(leaf):
+            h = self.free_header(leaf, a)
+            if h is not None:
+                out.append('request: %s carries a non-empty token for which %s is false (e.g. a method name outside that collection)' % (self.spelled_req(h), a))
+        return out
+
+    def spelled_req(self, name):
+        return self.ex.header_names.get(name, name)
+
     def require(self, run, form, leaves_events, what, node, func, runtime):
         """One obligation: `form` is established on every listed path."""
         for (l, ev) in leaves_events:
@@ -118,34 +198,6 @@ class Table:
                 return False
         run.ok(what, func.loc(node), node)
         return True
-
-
-def _split_args(s: str) -> List[str]:
-    out, depth, cur = [], 0, ''
-    quote = None
-    for ch in s:
-        if quote:
-            cur += ch
-            if ch == quote:
-                quote = None
-            continue
-        if ch in '\'"':
-            quote = ch
-            cur += ch
-        elif ch in '([':
-            depth += 1
-            cur += ch
-        elif ch in ')]':
-            depth -= 1
-            cur += ch
-        elif ch == ',' and depth == 0:
-            out.append(cur)
-            cur = ''
-        else:
-            cur += ch
-    if cur:
-        out.append(cur)
-    return out
 
 
 def table(run) -> Table:
@@ -260,20 +312,22 @@ def r3_withdraw(run):
     if not any(l.value_of('none(prehdr(allow))') is True for l in leaves):
         raise AnchorError('%s: no path on which a preflight finds the Allow header absent' % PR)
     for name in t.cors_names:
-        bad = next((l for l in leaves if l.header_state(name) != ('del',)), None)
-        if bad is not None and t.unknown_atoms(bad):
-            raise UnknownIdiom('%s: withdraw path guarded by a predicate outside the policy vocabulary: %s' % (PR, t.unknown_atoms(bad)[0]))
+        bads = [l for l in leaves if l.header_state(name) != ('del',)]
+        bad, atom = t.pick(bads)
+        if bads and bad is None:
+            raise UnknownIdiom('%s: withdraw path guarded by a predicate outside the policy vocabulary: %s' % (PR, atom))
         st = bad.header_state(name) if bad else None
         run.check(bad is None, 'a preflight whose response advertises no Allow set ends with %s withdrawn' % t.spelled(name), f,
                   'preflight without Allow: %s not withdrawn' % t.spelled(name), where=f.loc(),
-                  witness=(bad.describe() + ['%s at exit: %s' % (t.spelled(name), 'left as the responder set it' if st[0] == 'pre' else 'set to %s' % vkey(st[1]))]) if bad else None,
+                  witness=(t.witness(bad) + ['%s at exit: %s' % (t.spelled(name), 'left as the responder set it' if st[0] == 'pre' else 'set to %s' % vkey(st[1]))]) if bad else None,
                   runtime_witness='OPTIONS + Origin + Access-Control-Request-Method to a target that sets no Allow header: the response keeps %s' % t.spelled(name))
     pre = [l for l in t.leaves if l.outcome == 'return' and ev3(f_and(t.must_act, t.preflight), l) is not False]
-    bad = next((l for l in pre if l.header_state('allow') != ('del',)), None)
-    if bad is not None and t.unknown_atoms(bad):
-        raise UnknownIdiom('%s: preflight path guarded by a predicate outside the policy vocabulary' % PR)
+    bads = [l for l in pre if l.header_state('allow') != ('del',)]
+    bad, atom = t.pick(bads)
+    if bads and bad is None:
+        raise UnknownIdiom('%s: preflight path guarded by a predicate outside the policy vocabulary: %s' % (PR, atom))
     run.check(bad is None, 'the Allow header is removed from every preflight response (approved or denied)', f,
-              'preflight: Allow not removed', where=f.loc(), witness=bad.describe() if bad else None,
+              'preflight: Allow not removed', where=f.loc(), witness=t.witness(bad) if bad else None,
               runtime_witness='a CORS preflight response still carrying Allow')
 
 
@@ -287,6 +341,21 @@ def _approve(run):
     for h in APPROVE:
         if h not in t.cors_names:
             raise AnchorError('%s never touches %s' % (PR, h))
+    # must: every successful OPTIONS exchange that carries Access-Control-Request-Method and advertises an Allow set is approved
+    must = f_and(t.must_act, t.preflight, f_not(t.allow_absent))
+    region = [l for l in t.leaves if l.outcome == 'return' and ev3(must, l) is not False]
+    if not region:
+        raise AnchorError('%s: no approving path' % PR)
+    for h in APPROVE:
+        bads = [l for l in region if l.header_state(h)[0] != 'set']
+        bad, atom = t.pick(bads)
+        if bads and bad is None:
+            raise UnknownIdiom('%s: approve path guarded by a predicate outside the policy vocabulary: %s' % (PR, atom))
+        run.check(bad is None, 'an approved preflight carries %s' % t.spelled(h), f, 'approved preflight: %s' % t.spelled(h),
+                  where=f.loc(), witness=t.witness(bad) if bad else None,
+                  runtime_witness='OPTIONS + allowed Origin + a non-empty Access-Control-Request-Method to a target that advertises Allow: '
+                                  'the response lacks %s (the preflight is neither approved nor denied)' % t.spelled(h))
+    # only: approval headers appear on no other exchange
     need = f_and(t.granted, t.preflight, f_not(t.allow_absent))
     for node, func, les in t.sites('set', lambda h: h in APPROVE):
         t.require(run, need, les, 'preflight approval headers are written only for a successful OPTIONS carrying '
@@ -296,16 +365,6 @@ def _approve(run):
             bad = next(((l, ev) for (l, ev) in les if ev[2] != ('prehdr', 'allow')), None)
             run.check(bad is None, 'Access-Control-Allow-Methods is the Allow value the responder advertised', func, node,
                       witness=(bad[0].describe() + ['value: %s' % vkey(bad[1][2])]) if bad else None)
-    must = f_and(t.must_act, t.preflight, f_not(t.allow_absent))
-    region = [l for l in t.leaves if l.outcome == 'return' and ev3(must, l) is not False]
-    if not region:
-        raise AnchorError('%s: no approving path' % PR)
-    for h in APPROVE:
-        bad = next((l for l in region if l.header_state(h)[0] != 'set'), None)
-        if bad is not None and t.unknown_atoms(bad):
-            raise UnknownIdiom('%s: approve path guarded by a predicate outside the policy vocabulary' % PR)
-        run.check(bad is None, 'an approved preflight carries %s' % t.spelled(h), f, 'approved preflight: %s' % t.spelled(h),
-                  where=f.loc(), witness=bad.describe() if bad else None)
 
 
 def _is_cors_ctor(p, f: Func, c: ast.Call) -> bool:
